@@ -732,7 +732,7 @@ Definition gf_final (ip fp : str) (hasdot : bool) (x : Z * str * str * bool) : b
         end
   end.
 
-Lemma go_float_unfold lit : go_float_ok lit =
+Lemma go_float_unfold lit : strconv_float_ok lit =
   let '(ip, r1) := take_digits lit in
   let '(fp, r2) := frac_part r1 in gf_final ip fp (has_dot r1) (exp_part r2).
 Proof. reflexivity. Qed.
@@ -782,6 +782,7 @@ Qed.
 
 Lemma go_float_last lit : go_float_ok lit = true -> isDigit (last lit 0%N) = true.
 Proof.
+  unfold go_float_ok. intro Hgf. apply andb_true_iff in Hgf as [Hgf _]. revert Hgf.
   rewrite go_float_unfold.
   destruct (take_digits lit) as [ip r1] eqn:T1. apply take_digits_spec in T1 as [-> Lip].
   destruct (frac_part r1) as [fp r2] eqn:F.
